@@ -2481,7 +2481,9 @@ class MatProd(sp.Function):
 
 
 STR_METHODS = {"lower", "upper", "strip", "split", "startswith", "endswith", "join", "format", "rjust", "replace",
-               "lstrip", "rstrip", "isdigit"}
+               "lstrip", "rstrip", "isdigit", "find", "rfind", "index", "rindex", "count", "partition", "rpartition", "ljust", "center", "zfill",
+               "isalpha", "isalnum", "isspace", "title", "capitalize", "swapcase", "casefold", "splitlines", "rsplit", "removeprefix", "removesuffix",
+               "expandtabs", "isnumeric", "isdecimal", "islower", "isupper"}
 
 BUILTINS = {"id", "frozenset", "len", "range", "tuple", "list", "sorted", "zip", "map", "int", "float", "str", "sum", "abs", "min",
             "max", "round", "set", "dict", "enumerate", "isinstance", "next", "reversed", "any", "all", "open",
@@ -3467,9 +3469,16 @@ def lib_str_method(name):
                     raise ev.err("str.format with a non-constant argument", n, mod)
                 kw[kk] = vv
             return s_.format(*args, **kw)
-        r = getattr(s_, name)(*args)
+        try:
+            r = getattr(s_, name)(*args)
+        except ValueError:
+            raise RaisedV("ValueError", f"{mod.rel}:{getattr(n, 'lineno', 0)}" if mod else "")       # 'substring not found' of str.index on a constant string
         if isinstance(r, list):
             return Tup(r, "list")
+        if isinstance(r, tuple):
+            return Tup(list(r), "tuple")
+        if isinstance(r, int) and not isinstance(r, bool):
+            return sp.Integer(r)
         return r
     return f
 
